@@ -384,6 +384,10 @@ def gen_c03(tier, seed):
 
 
 def run_c03(rep, tier):
+    cfg = 'MC_RS_quick.cfg' if tier == 'quick' else 'MC_RS_thorough.cfg'
+    out, st = common.run_tlc('MC_RSvals', cfg=cfg, workers=8, timeout=3000, xmx='8g')
+    rep.add_design('MC_RS', cfg, out, st, 'fault environment on blocks of the reference encoder: every pattern of up to 2 (thorough: 3) corrupted codewords x error values '
+                   'is restored by the bounded-distance decoder; corrupted blocks never have zero syndromes; GF(256) field axioms')
     specs = gen_c03(tier, common.seed())
     rep.evaluations = len(specs)
     obs = symobs.observe_many([s[0] for s in specs], props=['C03'])
